@@ -356,7 +356,7 @@ func semProgramKeyed(r *explore.Run, be *semBackend, p *prog, d int, sc string) 
 
 func runSem(be *semBackend) int {
 	r := explore.New(be.prop)
-	fams := append(quickFamilies(r), wgen.F3(r.Thorough()), wgen.F4Access())
+	fams := append(quickFamilies(r), wgen.F3(r.Thorough()), wgen.F4Access(), wgen.F4Idx())
 	d1 := 1
 	forEachProgram(r, fams, nil, func(p *prog) {
 		d := d1
